@@ -121,7 +121,11 @@ def main():
             out.append(f"\t\tvEach(func() {{ vAssert(\"pure:{m}<-{'+'.join(fields)}\", a.{m}() == b.{m}()) }})")
         out.append("\t})")
     out.append("}")
-    open(os.path.join(VERIF, "harness", "calendar", "zz_vh_gen_rel.go"), "w").write("\n".join(out) + "\n")
+    target, text = os.path.join(VERIF, "harness", "calendar", "zz_vh_gen_rel.go"), "\n".join(out) + "\n"
+    if not os.path.exists(target) or open(target).read() != text:  # atomic, and only when the content changes
+        tmp = target + ".tmp%d" % os.getpid()
+        open(tmp, "w").write(text)
+        os.replace(tmp, target)
 
 
 if __name__ == "__main__":
